@@ -2,6 +2,7 @@ import Rare.Base.Proto
 import Rare.Model.C04
 import Rare.Model.C04Sync
 import Rare.Model.C06Inflate
+import Rare.Model.C04Rooms
 namespace Rare.Drv.C04
 open Rare Rare.C04 Rare.Proto
 
@@ -165,6 +166,20 @@ def handle : List String → String
       else if n ≤ 1 then "panic" else
         let r := Buf.scanAll fuel fuel (Buf.init n ⟨data, script⟩)
         render r.1 r.2.1 r.2.2.errs r.2.2.arrays
+    | _, _, _ => "bad-args"
+  | ["rooms", kind, bs, d, sc] =>
+    -- `len(p)` of every `Read(p)` the scanner issues, in order (`read_destinations_logged`: the logging twin is the
+    -- scanner); makes the allocation sizes observable: initial size, regrow size, refill size
+    match bs.toNat?, Hex.dec d, parseScript sc with
+    | some n, some data, some script =>
+      let fuel := data.length + script.length + 3
+      let fmt := fun (l : List Nat) => if l.isEmpty then "." else ",".intercalate (l.reverse.map toString)
+      if kind = "imm" then
+        let r := (Imm.init n ⟨data, script⟩).scanAllL fuel fuel []
+        s!"ok rooms={fmt r.1} lines={r.2.1.length}"
+      else if n ≤ 1 then "panic" else
+        let r := (Buf.init n ⟨data, script⟩).scanAllL fuel fuel []
+        s!"ok rooms={fmt r.1} lines={r.2.1.length}"
     | _, _, _ => "bad-args"
   | ["gz", _kind, _sz, file, _caps] =>
     -- the scanner over the reader `openFileToReader` returns for this file content with `-z`: the answer is computed
